@@ -70,6 +70,39 @@ CHECKS["C03"] = {
     "level_note": "reads unexported fields through reflect at cuts (a missing field makes the run inconclusive, never a violation)",
 }
 
+E3_ASSUME = COMMON_ASSUMPTIONS + [
+    "swarm runs inside one testing/synctest bubble per history: time is virtual, synctest.Wait() is the quiescent cut ('events in transit have been processed')",
+    "remote peers are scripted by the harness and speak the independent refwire codec over net.Pipe; storrent's internal PRNG choices are not controlled (they are part of the explored space)",
+    "unexported state is read through reflect at cuts only; a missing field makes the run inconclusive",
+]
+
+CHECKS["C09"] = {
+    "level": "exploration",
+    "engine": "E3 swarm",
+    "rule": ("random download histories (40-80 steps, a quiescent cut and the conservation equations after every step): 1-6 scripted peers connect, advertise (bitfield/have/have-all/none/dont-have, changing), choke/unchoke, allowed-fast, answer requests with true/corrupt/short/empty/over-long/misplaced/duplicate blocks or rejects, stay silent past the 30 s expiry, disconnect; consumers request/withdraw pieces; evictions; geometries incl. short final block and >=72 pieces. "
+             "Distinct = class vector of (answer kinds, choke, disconnect, advert changes, evictions, request/cancel counts); non-trivial = at least one block answered, one dropped (choke/disconnect/reject) and one request seen."),
+    "assumptions": E3_ASSUME,
+    "min": {"distinct_nontrivial": {"quick": 50, "thorough": 50}, "counters": {"conservation_cuts": 10000, "allzero_checks": 300, "requests_received": 2000}},
+    "parts": [{"name": "download", "pkg": "c09_conserve", "race": False, "shards": 16, "env": {"VERIF_PROP": "C09"}},
+              {"name": "download-race", "pkg": "c09_conserve", "race": True, "shards": 16, "env": {"VERIF_PROP": "C09", "VERIF_RACE_SUBSET": "1"}}],
+    "technique": "runtime monitor: conservation equations (availability, in-flight) evaluated by reflect at every quiescent cut of a virtual-time swarm against both the peer actors' state and the scripted remotes' own view; storrent's own 'Eek' alarms captured; -race",
+    "level_text": "The real torrent loop and peer actors run against scripted remotes in virtual time; after every step the two bookkeeping equations are evaluated at an exact quiescent cut and again after everybody disconnected. Held on the histories observed.",
+    "level_note": "web-seed reservations are judged in C14; this check runs without web seeds",
+}
+CHECKS["C11"] = {
+    "level": "exploration",
+    "engine": "E3 swarm",
+    "rule": CHECKS["C09"]["rule"].replace("the conservation equations", "the conformance monitor inside each scripted remote judging every message storrent sent"),
+    "assumptions": E3_ASSUME + ["messages that reach a remote between its own state-changing message and the next quiescent cut are judged against either the old or the new state (exact exemption window)"],
+    "min": {"distinct_nontrivial": {"quick": 50, "thorough": 50}, "counters": {"requests_received": 2000, "recv:bitfield": 100, "recv:cancel": 100, "recv:pex": 100}},
+    "parts": [{"name": "download", "pkg": "c09_conserve", "race": False, "shards": 16, "env": {"VERIF_PROP": "C11"}},
+              {"name": "download-race", "pkg": "c09_conserve", "race": True, "shards": 16, "env": {"VERIF_PROP": "C11", "VERIF_RACE_SUBSET": "1"}},
+              {"name": "pex", "pkg": "c09_conserve", "race": False, "shards": 16, "env": {"VERIF_PROP": "C11"}}],
+    "technique": "runtime monitor: online protocol-conformance checker inside the scripted remote peer (requests, cancels, bitfields, have/dont-have, fast messages, PEX deltas) with exact exemption windows closed at quiescent cuts",
+    "level_text": "Every message storrent emits in the generated histories is judged at the receiving end by an independent monitor that uses only what the remote itself sent and received. Held on the histories observed.",
+    "level_note": "queue-depth rule only judged when the remote advertised reqq; bitfield-first rule allows port/extended-handshake before it",
+}
+
 MANIFEST_META = {
     "hook_commits": ["db0b83b", "f0ff4d9", "d998a9e"],
     "pending_reason": {},
